@@ -32,16 +32,39 @@ class TaskSpec:
         self.note = note
 
 
+class TaskTimeout(Exception):
+    pass
+
+
+def _alarm(signum, frame):
+    raise TaskTimeout()
+
+
 def _run_one(i):
+    import signal
     spec = _TASKS[i]
     t0 = time.time()
+    budget = int(os.environ.get("A5VERIF_TASK_BUDGET", "900"))
+    try:
+        signal.signal(signal.SIGALRM, _alarm)
+        signal.alarm(budget)
+    except Exception:
+        pass
     try:
         r = spec.runner()
+    except TaskTimeout:
+        r = {"name": spec.name, "status": "unsupported", "message": "task exceeded its time budget of %d s (undecided)" % budget,
+             "vcs": [], "paths": 0, "returns": 0, "raises": 0, "seconds": time.time() - t0, "solver_seconds": 0.0,
+             "branch_checks": 0, "meta": {}}
     except Exception as e:      # pragma: no cover
         import traceback
         r = {"name": spec.name, "status": "error", "message": "%s: %s\n%s" % (type(e).__name__, e, traceback.format_exc()),
              "vcs": [], "paths": 0, "returns": 0, "raises": 0, "seconds": time.time() - t0, "solver_seconds": 0.0,
              "branch_checks": 0, "meta": {}}
+    try:
+        signal.alarm(0)
+    except Exception:
+        pass
     r["functions"] = spec.functions
     r["bounded"] = spec.bounded
     if os.environ.get("A5VERIF_PROGRESS"):
